@@ -13,7 +13,7 @@ def opDrop (a : List String) : String :=
     match ofHex h with
     | some v =>
       let ops : List Op :=
-        if how == "cloned" || how == "keypair-clone" then [.create v, .clone 0, .drop 1, .drop 0] else [.create v, .drop 0]
+        if how.startsWith "cloned" || how.startsWith "keypair-clone" then [.create v, .clone 0, .drop 1, .drop 0] else [.create v, .drop 0]
       let s := run true ops
       if s.all (fun r => !r.alive && r.bytes.all (· == 0)) then "wiped" else "leak"
     | none => "bad-op"
